@@ -124,6 +124,17 @@ func (w *World) verifyFunction(c *Contract) (res *FuncResult) {
 		}
 		vc.applyGassigns(c, vc.contractEnv(c, args, results, out, vc.entry), out, false)
 	}
+	// lemma instances over the final state (usepost): valid facts, assumed at every return
+	for _, cl := range vc.clauses(c) {
+		if cl.Raw.Kind != "usepost" {
+			continue
+		}
+		for _, rs := range fr.retVals {
+			post := vc.contractEnv(c, args, rs.vals, rs.st, vc.entry)
+			vc.assume(rs.st.cond, vc.specBool(post, cl.Expr))
+		}
+		vc.trusted["lemma instance "+cl.Raw.Text+" (proved separately as a lemma obligation)"] = true
+	}
 	// postconditions: one obligation per clause, one sub-goal per return site
 	for _, cl := range vc.clauses(c) {
 		if cl.Raw.Kind != "ensures" {
@@ -454,6 +465,32 @@ func (w *World) verifyLemma(l *Lemma) (res *FuncResult) {
 	}
 	vc.obls = append(vc.obls, &Obligation{Name: vc.label + "#cover.hyps", Kind: "cover", Fn: vc.label, Props: l.Raw.Props,
 		Prefix: len(vc.script), Cond: "true", Goal: "false", Expect: "sat"})
+	if len(l.Raw.Induction) == 2 {
+		// the conclusion follows by induction on a natural-number parameter from two lemmas that are
+		// proved as ordinary obligations (base case and step); the induction principle itself is assumed
+		o := &Obligation{Name: vc.label + "#induction", Kind: "lemma", Fn: vc.label, Props: l.Raw.Props, Expect: "unsat", Solver: "ground", Status: "unsat", Goal: "true", Cond: "true"}
+		for _, n := range l.Raw.Induction {
+			found := false
+			for _, l2 := range w.Lemmas {
+				if l2.Raw.Name == n && l2.Pkg == l.Pkg && len(l2.Raw.Induction) == 0 {
+					found = true
+					for _, p := range l.Raw.Props {
+						if !hasProp(l2.Raw.Props, p) {
+							found = false
+						}
+					}
+				}
+			}
+			if !found {
+				o.Status = "sat"
+				o.Output = "lemma " + n + " (base or step of the induction) is missing or does not serve the same properties"
+				o.Model = o.Output
+			}
+		}
+		vc.obls = append(vc.obls, o)
+		res.Trusted = append(res.Trusted, "induction principle over a natural-number parameter: lemma "+l.Raw.Name+" follows from the proved lemmas "+strings.Join(l.Raw.Induction, " (base) and ")+" (step); that they are the base and step instances of its statement is by inspection")
+		return res
+	}
 	vc.oblige(st, "lemma", "", vc.specBool(env, l.Concl), l.Decl.Pos(), l.Raw.Props)
 	if vc.revealed["rvtables"] {
 		o := vc.obls[len(vc.obls)-1]
